@@ -15,7 +15,7 @@
    back after close()); [fixed c = false] is the code as found (KeyError on the retry, D27). *)
 From Coq Require Import ZArith List Bool.
 Import ListNotations.
-From SCMO Require Import Lib.Val.
+From SCMO Require Import Lib.Val Gen.GenHandles.
 Open Scope Z_scope.
 
 Definition str := list Z.
@@ -161,6 +161,109 @@ Definition run_ops (c : cfg) (orc : oracle) (init : Z -> option str) (ops : list
 
 Definition state_of (r : res) : state := match r with Ok s => s | Raise _ s => s end.
 
+(* ==================================================================================================
+   The model tied to the source: the same state machine, DEFINED WITH the decisions regenerated from
+   handlelimiter.py on every run (Gen/GenHandles.v, tools/c19.py regen_handles).  run_C19 (K) runs
+   these hl_* functions; Proofs/C19_tie.v proves the shape lemmas (g_retry n = (1 <? n), ...) and from
+   them  hl_run_ops mh pe = run_ops {| maxHandles := mh; pruneEvery := pe; fixed := true |}, i.e. that the
+   definitions above (the reference kernel the invariant proofs are about) are what the code does. *)
+Definition ELOOP : Z := 3.  (* the handler would retry again with nothing left to close: never returns *)
+
+(* `if path in self.seen or forceAppend:` *)
+Definition hl_append_branch (st : state) (o : wop) : bool :=
+  g_append_test (memZ (w_path o) (seen st)) (w_fa o).
+
+(* one pass through the try body in branch a: the open() call (mode by branch; gz = true, the shape lemma
+   g_opens_append a gz = a covers method 0), then whatever the branch does to self.seen *)
+Definition hl_os_open (st : state) (p : Z) (a ok : bool) : state :=
+  let m := g_opens_append a true in
+  {| opens := opens st; seen := if g_seen_added a ok then p :: seen st else seen st; ctr := ctr st;
+     clock := clock st; att := S (att st);
+     fs := if ok then fs_open m p (fs st) else fs st;
+     trace := EvOpen p m (length (opens st)) ok :: trace st |}.
+
+Definition hl_register (st : state) (p : Z) : state :=
+  {| opens := opens st ++ [(p, 0)]; seen := seen st; ctr := ctr st; clock := clock st; att := att st;
+     fs := fs st; trace := trace st |}.
+
+Definition hl_close_all (st : state) : state :=
+  {| opens := []; seen := if g_close_clears_seen then [] else seen st;
+     ctr := if g_close_resets_ctr then 0 else ctr st; clock := clock st; att := att st; fs := fs st;
+     trace := rev (map EvClose (paths st)) ++ trace st |}.
+
+Definition hl_open_phase (orc : oracle) (st : state) (o : wop) : res :=
+  let p := w_path o in
+  let a := hl_append_branch st o in
+  if orc (att st) p (length (opens st)) then
+    let st1 := hl_os_open st p a false in
+    if g_handler_catches true && g_retry (Z.of_nat (length (opens st)) + 1) then
+      let st2 := hl_close_all st1 in
+      let a2 := hl_append_branch st2 o in        (* the test is evaluated again in the loop *)
+      if orc (att st2) p 0%nat then
+        let st3 := hl_os_open st2 p a2 false in
+        if g_retry (if g_restores_placeholder then 1 else 0) then Raise ELOOP st3 else Raise EOS st3
+      else
+        let st3 := hl_os_open st2 p a2 true in
+        if g_restores_placeholder then Ok (hl_register st3 p) else Raise EKEY st3
+    else Raise EOS st1
+  else Ok (hl_register (hl_os_open st p a true) p).
+
+Definition hl_before (x h : Z * Z) : bool :=
+  if g_sort_descending then g_victim_key (snd h) <? g_victim_key (snd x)
+  else g_victim_key (snd x) <? g_victim_key (snd h).
+Fixpoint hl_ins (h : Z * Z) (l : list (Z * Z)) : list (Z * Z) :=
+  match l with
+  | [] => [h]
+  | x :: r => if hl_before x h then x :: hl_ins h r else h :: x :: r
+  end.
+Definition hl_sort (l : list (Z * Z)) : list (Z * Z) := fold_right hl_ins [] l.
+
+(* l[:k] *)
+Definition py_take {A} (k : Z) (l : list A) : list A :=
+  let n := Z.of_nat (length l) in
+  if k <? 0 then firstn (Z.to_nat (Z.max 0 (n + k))) l else firstn (Z.to_nat (Z.min k n)) l.
+
+Definition hl_victims (mh : Z) (st : state) : list Z :=
+  let n := Z.of_nat (length (opens st)) in
+  if g_prune_needed n mh then map fst (py_take (g_to_prune n mh) (hl_sort (opens st))) else [].
+
+Definition hl_prune (mh : Z) (st : state) : state :=
+  let v := hl_victims mh st in
+  {| opens := filter (fun h => negb (memZ (fst h) v)) (opens st);
+     seen := if g_prune_keeps_seen then seen st else []; ctr := g_prune_ctr;
+     clock := clock st; att := att st; fs := fs st;
+     trace := rev (map EvClose v) ++ trace st |}.
+
+Definition hl_write_phase (mh pe : Z) (st : state) (o : wop) : state :=
+  let p := w_path o in
+  let st1 := {| opens := set_lastw p (clock st) (opens st); seen := seen st; ctr := g_ctr_step (ctr st);
+                clock := clock st + 1; att := att st; fs := fs_append p (w_str o) (fs st);
+                trace := trace st |} in
+  if g_prune_due (ctr st1) pe then hl_prune mh st1 else st1.
+
+Definition hl_write (mh pe : Z) (orc : oracle) (st : state) (o : wop) : res :=
+  if g_write_guard (memZ (w_path o) (paths st)) then
+    match hl_open_phase orc st o with
+    | Ok st' => Ok (hl_write_phase mh pe st' o)
+    | Raise e st' => Raise e st'
+    end
+  else Ok (hl_write_phase mh pe st o).
+
+Fixpoint hl_run_from (mh pe : Z) (orc : oracle) (ops : list wop) (st : state) (n : nat) : nat * res :=
+  match ops with
+  | [] => (n, Ok st)
+  | o :: r => match hl_write mh pe orc st o with
+              | Ok st' => hl_run_from mh pe orc r st' (S n)
+              | Raise e st' => (n, Raise e st')
+              end
+  end.
+
+Definition hl_init_state (init : Z -> option str) : state :=
+  {| opens := []; seen := []; ctr := g_init_ctr; clock := 0; att := 0%nat; fs := init; trace := [] |}.
+
+Definition hl_run_ops (mh pe : Z) (orc : oracle) (init : Z -> option str) (ops : list wop) : nat * res :=
+  hl_run_from mh pe orc ops (hl_init_state init) 0%nat.
+
 (* descriptor accounting on the OS-call trace *)
 Definition n_opened (tr : list event) : nat :=
   length (filter (fun e => match e with EvOpen _ _ _ ok => ok | EvClose _ => false end) tr).
@@ -287,9 +390,10 @@ Definition run_C19 (mode : Z) (v : Val) : Val :=
   let ops := map dec_op (getL (nthV 5 v)) in
   let univ := getZs (nthV 6 v) in
   match mode with
-  | 0 => let '(k, r) := run_ops c (script_oracle s) init ops in
+  | 0 => let '(k, r) := if fixed c then hl_run_ops (maxHandles c) (pruneEvery c) (script_oracle s) init ops
+                        else run_ops c (script_oracle s) init ops in
          let st := state_of r in
-         let fin := close_all st in
+         let fin := if fixed c then hl_close_all st else close_all st in
          VL [ VL [VZ (Z.of_nat k); VZ (match r with Ok _ => 0 | Raise e _ => e end)];
               VL (map enc_event (rev (trace fin)));
               ofZs (paths st);
